@@ -7,17 +7,21 @@
 package explore
 
 import (
+	"errors"
 	"fmt"
 	"strings"
+	"sync/atomic"
+	"time"
 
 	"github.com/verily-src/fhirpath-go/fhirpath/verifh/sched/scen"
 	"github.com/verily-src/fhirpath-go/internal/verifsched"
 )
 
 type event struct {
-	tid  int
-	done bool
-	site int
+	tid     int
+	done    bool
+	site    int
+	blocked bool // sent by the watchdog, not by a thread
 }
 
 type step struct {
@@ -40,13 +44,60 @@ type run struct {
 	events chan event
 	cur    int
 	writes []string
+	free   atomic.Bool // set when a schedule is abandoned: every thread then runs to its end without yielding
+	nsteps atomic.Int64
+}
+
+// one watchdog for the process: when the current run has not moved for BlockedAfter it tells the explorer (which is
+// then waiting for an event) that the resumed thread is blocked. No per-step timer: a step costs what it cost before.
+var curRun atomic.Pointer[run]
+
+func init() {
+	go func() {
+		var last *run
+		var lastSteps int64
+		var since time.Time
+		for {
+			time.Sleep(250 * time.Millisecond)
+			r := curRun.Load()
+			if r == nil || r.free.Load() {
+				last = nil
+				continue
+			}
+			if n := r.nsteps.Load(); r != last || n != lastSteps {
+				last, lastSteps, since = r, n, time.Now()
+				continue
+			}
+			if time.Since(since) >= BlockedAfter {
+				select {
+				case r.events <- event{blocked: true}:
+				default:
+				}
+				last = nil
+			}
+		}
+	}()
 }
 
 func (r *run) Point(site int) {
+	if r.free.Load() {
+		return
+	}
 	tid := r.cur // read before yielding: the explorer changes cur as soon as it has the event
 	r.events <- event{tid: tid, site: site}
 	<-r.resume[tid]
 }
+
+// errBlocked: the thread that was resumed neither reached a scheduling point nor finished within BlockedAfter. The code
+// under test then waits on synchronisation the scheduler does not model (a sync.Mutex / Once / Map held by a thread that
+// is parked at a point). Such a wait is no violation - a lock is a legitimate way to be goroutine-safe - but the schedule
+// is not one the real runtime could produce at this granularity (the waiting thread is not enabled), so it is abandoned:
+// every thread is released to run freely to its end (which also releases process-wide locks), and the explorer goes on.
+var errBlocked = errors.New("blocked on synchronisation outside the scheduler")
+
+// BlockedAfter is how long a resumed thread may stay silent. A step between two points takes microseconds; a timeout
+// can only cost a schedule (counted and reported), never raise an alarm.
+var BlockedAfter = 3 * time.Second
 
 func (r *run) Access(site int, write bool) {
 	if write {
@@ -81,6 +132,8 @@ func execute(sc *scen.Scenario, prefix []int) (*execution, error) {
 	}
 	verifsched.SetHook(r)
 	defer verifsched.SetHook(nil)
+	curRun.Store(r)
+	defer curRun.Store(nil)
 	running := -1
 	for i := 0; ; i++ {
 		var enabled []int
@@ -106,7 +159,41 @@ func execute(sc *scen.Scenario, prefix []int) (*execution, error) {
 		x.choices = append(x.choices, c)
 		r.cur = t
 		r.resume[t] <- struct{}{}
+		r.nsteps.Add(1)
 		ev := <-r.events
+		if ev.blocked {
+			// abandon: free-run everything; parked threads are resumed, the blocked one follows once the lock is released
+			r.free.Store(true)
+			left := 0
+			for u := 0; u < n; u++ {
+				if !done[u] {
+					left++
+					if u != t {
+						u := u
+						go func() { r.resume[u] <- struct{}{} }()
+					}
+				}
+			}
+			limit := time.After(60 * time.Second)
+			for left > 0 {
+				select {
+				case e := <-r.events:
+					if e.blocked {
+						continue
+					}
+					if e.done {
+						left--
+					} else {
+						// a thread that had passed the free check before it was set: let it go on
+						e := e
+						go func() { r.resume[e.tid] <- struct{}{} }()
+					}
+				case <-limit:
+					return nil, fmt.Errorf("threads still blocked 60 s after all of them were released (deadlock in the code under test?) at step %d, thread %d", i, t)
+				}
+			}
+			return nil, errBlocked
+		}
 		if ev.tid != t {
 			return nil, fmt.Errorf("scheduler error: resumed thread %d but thread %d reported", t, ev.tid)
 		}
@@ -127,16 +214,17 @@ func execute(sc *scen.Scenario, prefix []int) (*execution, error) {
 
 // Result of exploring one scenario.
 type Result struct {
-	Scenario   string            `json:"scenario"`
-	Executions int64             `json:"executions"`
-	Points     []int             `json:"points_per_thread"`
-	Bound      int               `json:"preemption_bound"`
-	Exhaustive bool              `json:"exhaustive"`
-	Outcomes   int               `json:"distinct_observation_vectors"`
-	Sites      int               `json:"distinct_sites"`
-	Findings   []Finding         `json:"findings"`
-	Note       string            `json:"note"`
-	Sample     map[string]any    `json:"sample,omitempty"`
+	Scenario   string         `json:"scenario"`
+	Executions int64          `json:"executions"`
+	Points     []int          `json:"points_per_thread"`
+	Bound      int            `json:"preemption_bound"`
+	Exhaustive bool           `json:"exhaustive"`
+	Outcomes   int            `json:"distinct_observation_vectors"`
+	Sites      int            `json:"distinct_sites"`
+	Findings   []Finding      `json:"findings"`
+	Blocked    int            `json:"schedules_abandoned_blocked"`
+	Note       string         `json:"note"`
+	Sample     map[string]any `json:"sample,omitempty"`
 }
 
 type Finding struct {
@@ -249,6 +337,16 @@ func Explore(sc *scen.Scenario, maxBound int, maxExec int64) *Result {
 				return
 			}
 			x, err := execute(sc, prefix)
+			if err == errBlocked {
+				// infeasible at this granularity (see errBlocked); nothing below this prefix is explored
+				res.Blocked++
+				if res.Blocked >= 40 {
+					res.Note += "; stopped after 40 schedules in which a thread waited on synchronisation outside the scheduler (locks in the code under test): the schedule space is not covered"
+					res.Exhaustive = false
+					capped = true
+				}
+				return
+			}
 			if err != nil {
 				res.Findings = append(res.Findings, Finding{"harness-error", map[string]any{"err": err.Error(), "prefix": fmt.Sprint(prefix)}})
 				capped = true
